@@ -1261,6 +1261,7 @@ class Gen(object):
                 add(4, self.g_cb_arm)
                 add(4, self.g_provoke)
             add(3, self.g_chain2)
+            add(3, self.g_observe)
             add(1, self.g_pow, 'derive_arith')
             add(1, self.g_probe_shift, 'derive_bits')
             if prop == 'C20':
@@ -1291,6 +1292,7 @@ class Gen(object):
             add(1, self.g_like)
             add(1, self.g_deepcopy)
             add(2, self.g_big_store)
+            add(2, self.g_observe)
             add(2, self.g_chain2)
             add(1, self.g_probe_bigstore_then_convert)
             if p.p_register > 0:
@@ -1460,6 +1462,13 @@ class Gen(object):
         if op['route'] == 'fn' and r.random() < 0.5:
             op['sizing'] = r.choice(SIZINGS)
         return op
+
+    def g_observe(self):
+        from .engine import World
+        k, _ = self.pick()
+        if k is None:
+            return self.g_new()
+        return {'op': 'observe', 'slot': k, 'f': self.rng.choice(World.OBSERVERS)}
 
     def g_sort_inplace(self):
         k, _ = self.pick(lambda o: self.is_arr(o) and self.is_real(o))
